@@ -128,7 +128,7 @@ fn level(xs: &[UTy], ternary: bool) -> Vec<UTy> {
     out
 }
 
-fn is_ident(s: &str) -> bool {
+pub fn is_ident(s: &str) -> bool {
     let mut cs = s.chars();
     match cs.next() {
         // the lexer of the language wants a letter first (`_x` is not an identifier)
@@ -139,7 +139,7 @@ fn is_ident(s: &str) -> bool {
 }
 
 /// the spellings the compiler's own encoders give a type: candidates for adversarial user names
-fn real_spellings(t: &tast::Ty) -> Vec<String> {
+pub fn real_spellings(t: &tast::Ty) -> Vec<String> {
     let mut v = Vec::new();
     let mut push = |f: &dyn Fn() -> String| {
         if let Ok(s) = catch_unwind(AssertUnwindSafe(f)) {
@@ -153,7 +153,7 @@ fn real_spellings(t: &tast::Ty) -> Vec<String> {
     v
 }
 
-const PRIM_WORDS: [&str; 14] = ["unit", "bool", "int8", "int16", "int32", "int64", "uint8", "uint16", "uint32", "uint64", "float32", "float64", "string", "char"];
+pub const PRIM_WORDS: [&str; 14] = ["unit", "bool", "int8", "int16", "int32", "int64", "uint8", "uint16", "uint32", "uint64", "float32", "float64", "string", "char"];
 
 fn decl_for(name: &str) -> String {
     match name {
@@ -295,7 +295,7 @@ fn kids(t: &tast::Ty) -> (&'static str, Vec<&tast::Ty>) {
 /// the pair of constructors at the place where two types part: descend while the constructor and the
 /// number of components agree and exactly one component differs (so `(dyn Tr, int32)` / `(dynTr, int32)`
 /// is `dyn~struct`, a regrouped tuple is `tuple~tuple`)
-fn diff_shape(a: &tast::Ty, b: &tast::Ty) -> String {
+pub fn diff_shape(a: &tast::Ty, b: &tast::Ty) -> String {
     let (sa, ka) = kids(a);
     let (sb, kb) = kids(b);
     if sa == sb && ka.len() == kb.len() && !ka.is_empty() {
